@@ -43,8 +43,7 @@ def mark_literals(P: Program):
 def run(P: Program, rep: Report):
     rep.not_decided += ["that re offsets equal source positions (trusted)", "Unicode \\w in block types"]
     rep.rule("C02.R1", "lexer agreement: the one-character marks of the mark regex are exactly the unescaped { } \" , = (plus "
-                       "newline), each guarded by 'not preceded by a backslash', and the literals the scanners compare marks "
-                       "with are exactly that alphabet (no dead and no undetectable token)")
+                       "newline), each guarded by 'not preceded by a backslash' (escaped delimiters are plain text, unescaped ones always marks)")
     rx = find_mark_regex(P)
     singles = rx.single_char_marks()
     want = {"{", "}", '"', ",", "="}
@@ -57,17 +56,8 @@ def run(P: Program, rep: Report):
         rep.check(ok, "C02.R1", f"regex:escape:{ch}", rx.loc,
                   f"mark {ch!r} is not guarded by exactly 'not preceded by a backslash' (escaped delimiters must be plain text, "
                   f"unescaped ones must always be marks)")
-    eq, prefix, sites = mark_literals(P)
-    rep.require_count("C02.R1", "mark-text comparison sites in the Splitter", sites, 20)
-    eq1 = {x for x in eq if len(x) == 1 and x != "\n"}
-    rep.check(eq1 == got, "C02.R1", "scanner:literals", "bibtexparser/splitter.py",
-              f"scanners compare marks with {sorted(eq1)} but the regex produces {sorted(got)}")
-    rep.check("@" in prefix, "C02.R1", "scanner:block-start-prefix", "bibtexparser/splitter.py",
-              "no scanner tests marks for the block-start prefix '@'")
-    kinds = {p for p in prefix if p.startswith("@") and len(p) > 1}
-    rep.check(kinds == {"@comment", "@preamble", "@string"}, "C02.R1", "dispatch:prefixes", "bibtexparser/splitter.py",
-              f"block kinds are dispatched on {sorted(kinds)}, the dialect has @comment, @preamble, @string (anything else is an entry)")
-
+    # (which marks the scanners handle and how block kinds are dispatched is decided semantically by the product below: an
+    #  unhandled mark or a wrong prefix changes the events for some mark sequence)
     rep.rule("C02.R2", "on every mark sequence without a failed block, the blocks added are exactly the reference's: kind by "
                        "case-insensitive type prefix, lower-cased stripped entry type, key / field keys / values / comment / "
                        "preamble / string texts taken from the source between the right delimiters (stripped except the "
